@@ -41,6 +41,9 @@ pub struct C05 {
     pub src_delay: Vec<u32>,
     /// consumer stall after receiving item i
     pub stall: Vec<u32>,
+    /// the upstream reports an exact size_hint
+    #[serde(default)]
+    pub hinted: bool,
 }
 
 pub fn f_val(x: u64) -> u64 {
@@ -84,10 +87,20 @@ pub struct Src {
     pub next: usize,
     pub n: usize,
     pub delay: Arc<Vec<u32>>,
+    /// report an exact size_hint like a Vec or a range would (the default iterator hint is (0, None))
+    pub hinted: bool,
 }
 
 impl Iterator for Src {
     type Item = u64;
+    fn size_hint(&self) -> (usize, Option<usize>) {
+        if self.hinted && self.n != usize::MAX {
+            let left = self.n - self.next.min(self.n);
+            (left, Some(left))
+        } else {
+            (0, None)
+        }
+    }
     fn next(&mut self) -> Option<u64> {
         if self.next >= self.n {
             rt::log(Kind::PullEnd, 0, 0);
@@ -150,8 +163,10 @@ impl Scenario for C05 {
     fn generate(run_seed: u64, tier: Tier, _index: u64) -> Self {
         let mut rng = Rng::new(derive(run_seed, 1));
         let max_n = if tier == Tier::Quick { 24 } else { 40 };
-        let n = match rng.below(10) {
-            0 => rng.usize(0, 2),
+        let n = match rng.below(100) {
+            0..=9 => rng.usize(0, 2),
+            // lengths around the wrap-around points of small integer types (rare: such runs are long)
+            10 => *rng.pick(&[255usize, 256, 257, 512]),
             _ => rng.usize(0, max_n),
         };
         let w = match rng.below(12) {
@@ -168,7 +183,8 @@ impl Scenario for C05 {
         let fn_delay = delays(&mut rng, n);
         let src_delay = if rng.chance(0.3) { delays(&mut rng, n) } else { vec![0; n] };
         let stall = if rng.chance(0.3) { delays(&mut rng, n) } else { vec![0; n] };
-        C05 { run_seed, mode: SMode::draw(&mut rng), n, w, shape, fn_delay, src_delay, stall }
+        let hinted = rng.chance(0.5);
+        C05 { run_seed, mode: SMode::draw(&mut rng), n, w, shape, fn_delay, src_delay, stall, hinted }
     }
 
     fn run_seed(&self) -> u64 {
@@ -220,6 +236,11 @@ impl Scenario for C05 {
                 v.push(c);
             }
         }
+        if self.hinted {
+            let mut c = self.clone();
+            c.hinted = false;
+            v.push(c);
+        }
         if self.mode != SMode::Uniform {
             let mut c = self.clone();
             c.mode = SMode::Uniform;
@@ -253,7 +274,7 @@ impl Scenario for C05 {
                 rt::log(Kind::FnEnd, x, 1);
                 g_val(x)
             });
-            let src = Src { next: 0, n: sc.n, delay: Arc::new(sc.src_delay.clone()) };
+            let src = Src { next: 0, n: sc.n, delay: Arc::new(sc.src_delay.clone()), hinted: sc.hinted };
             let mut it: Box<dyn Iterator<Item = u64>> = match sc.shape {
                 Shape::Pipe => Box::new(src.pipe(f, sc.w)),
                 Shape::PipeBuffered(b) => Box::new(src.pipe(f, sc.w).buffered(b)),
